@@ -136,8 +136,38 @@ def normalise(tree):
                     i += 1
     _sink_attribute_copies(tree)
     _split_parallel_assignments(tree)
+    _raising_loops_to_any(tree)
     _self_properties_to_attributes(tree)
     return tree
+
+
+def _raising_loops_to_any(tree):
+    """`for v in IT: if TEST: raise E`  ->  `if any(TEST for v in IT): raise E`  when the loop does nothing else, `v` is a
+    plain name that is read neither by the raise nor after the loop (both forms evaluate TEST on the same elements in
+    the same order and raise at the first hit)."""
+    for fn in [n for n in ast.walk(tree) if isinstance(n, ast.FunctionDef)]:
+        for parent in ast.walk(fn):
+            for fld in ('body', 'orelse', 'finalbody'):
+                body = getattr(parent, fld, None)
+                if not (isinstance(body, list) and body and isinstance(body[0], ast.stmt)):
+                    continue
+                for i, st in enumerate(body):
+                    if not (isinstance(st, ast.For) and not st.orelse and isinstance(st.target, ast.Name) and
+                            len(st.body) == 1 and isinstance(st.body[0], ast.If) and not st.body[0].orelse and
+                            len(st.body[0].body) == 1 and isinstance(st.body[0].body[0], ast.Raise)):
+                        continue
+                    v, cond = st.target.id, st.body[0]
+                    if any(isinstance(n, ast.Name) and n.id == v for n in ast.walk(cond.body[0])):
+                        continue
+                    if any(isinstance(n, (ast.Yield, ast.YieldFrom, ast.Await, ast.NamedExpr)) for n in ast.walk(cond.test)):
+                        continue
+                    inside = {id(n) for n in ast.walk(st)}
+                    if any(isinstance(n, ast.Name) and n.id == v and id(n) not in inside for n in ast.walk(fn)):
+                        continue
+                    gen = ast.GeneratorExp(elt=cond.test, generators=[ast.comprehension(target=st.target, iter=st.iter, ifs=[], is_async=0)])
+                    call = ast.Call(func=ast.Name(id='any', ctx=ast.Load()), args=[gen], keywords=[])
+                    body[i] = ast.copy_location(ast.If(test=call, body=cond.body, orelse=[]), st)
+    ast.fix_missing_locations(tree)
 
 
 def _split_parallel_assignments(tree):
